@@ -277,8 +277,31 @@ func foldUD(in *UD, v structform.ExtVisitor) error {
 	return v.OnString("ud" + strconv.FormatInt(int64(*in), 10))
 }
 
+// pointer-shaped types (one pointer word: a reflect.Value / interface holds them in place, not
+// behind a pointer) with a registered fold function
+type UFM map[string]int
+
+func foldUFM(in *UFM, v structform.ExtVisitor) error {
+	if in == nil {
+		return v.OnNil()
+	}
+	return v.OnString("um" + strconv.Itoa(len(*in)))
+}
+
+type UFP struct{ P *int }
+
+func foldUFP(in *UFP, v structform.ExtVisitor) error {
+	if in == nil {
+		return v.OnNil()
+	}
+	if in.P == nil {
+		return v.OnString("up-nil")
+	}
+	return v.OnString("up" + strconv.Itoa(*in.P))
+}
+
 // UserFolders is the gotype.Folders option every harness iterator is created with.
-func UserFolders() gotype.FoldOption { return gotype.Folders(foldUF, foldUO, foldUD) }
+func UserFolders() gotype.FoldOption { return gotype.Folders(foldUF, foldUO, foldUD, foldUFM, foldUFP) }
 
 // interface-typed fields, mixed dynamic values
 type Ifc struct {
@@ -363,6 +386,7 @@ var Menagerie = []MenagerieEntry{
 	{"EmbPtr", reflect.TypeOf(EmbPtr{})}, {"EmbPtrPlain", reflect.TypeOf(EmbPtrPlain{})},
 	{"EmbUnexp", reflect.TypeOf(EmbUnexp{})}, {"EmbZ", reflect.TypeOf(EmbZ{})}, {"EmbF", reflect.TypeOf(EmbF{})},
 	{"UF", reflect.TypeOf(UF{})}, {"UO", reflect.TypeOf(UO{})}, {"UD", reflect.TypeOf(UD(0))},
+	{"UFM", reflect.TypeOf(UFM(nil))}, {"UFP", reflect.TypeOf(UFP{})},
 	{"Ifc", reflect.TypeOf(Ifc{})}, {"Mixed", reflect.TypeOf(Mixed{})},
 	{"N", reflect.TypeOf(N{})}, {"NI", reflect.TypeOf(NI{})},
 	{"Tree", reflect.TypeOf(Tree{})}, {"MA", reflect.TypeOf(MA{})}, {"MB", reflect.TypeOf(MB{})},
